@@ -513,8 +513,8 @@ def run(prop: str, tier: str, only=None) -> Result:
     if quick:
         for s in specs_upto(4, 4):
             k += 1
-            sampled.append((s, (base + k, 40), MODES))
-        n_big, per_big, lo, hi = 60, 30, 5, 6
+            sampled.append((s, (base + k, 120), MODES))
+        n_big, per_big, lo, hi = 150, 40, 5, 6
     else:
         for s in gen.eqpair_specs(4, min_n=4):
             k += 1
@@ -535,7 +535,7 @@ def run(prop: str, tier: str, only=None) -> Result:
         f"exhaustive: every ordered forest with <= {n_ex} nodes x (distinct labels + all labelings over {{a,b}}), equal-data pairs (ids 1,2) <= 3 nodes, explicit data_id <= {2 if quick else 3} nodes "
         f"x ALL 6^n assignments of {{T,F,SkipBranch,SkipBranch(and_self=False),SelectBranch,StopTraversal}} (branch level: all assignments over the branch) "
         f"x delivery {{returned instance, raised instance, raised class / StopIteration}}; control classes returned: forests <= {n_cls} nodes; "
-        + (f"sampled: every 4-node spec x 40 seeded assignments, {n_big} random trees with 5..6 nodes x {per_big} assignments" if quick else f"sampled: every 4-node equal-data-pair spec x 150 seeded assignments, {n_big} random trees with 5..6 nodes x {per_big} seeded assignments")
+        + (f"sampled: every 4-node spec x 120 seeded assignments, {n_big} random trees with 5..6 nodes x {per_big} assignments" if quick else f"sampled: every 4-node equal-data-pair spec x 150 seeded assignments, {n_big} random trees with 5..6 nodes x {per_big} seeded assignments")
         + f" (VERIF_SEED={seed()})"
     )
     return total
